@@ -55,7 +55,12 @@ HEADER = ["import math", "from typing import Any, Tuple", "from mypy_extensions 
 
 def module_source(specs: list[dict]) -> str:
     """A module containing just the given functions (used by replay)."""
-    return "\n".join(HEADER + [sp["src"] + "\n" for sp in specs]) + "\n"
+    parts = []
+    for sp in specs:
+        if sp.get("prod_src") and sp["prod_src"] + "\n" not in parts:
+            parts.append(sp["prod_src"] + "\n")
+        parts.append(sp["src"] + "\n")
+    return "\n".join(HEADER + parts) + "\n"
 
 
 class Gen:
@@ -261,4 +266,62 @@ def generate() -> tuple[str, list[dict]]:
               req=[t, None])
     g.add("v_float__floordiv_int", "float(x//y)", XY("int", "int"), "float", ["return float(x // y)"], fam="//")
     g.add("v_int__truediv", "int(x/y)", XY("int", "int"), "int", ["return int(x / y)"], fam="/")
+    return "\n".join(g.lines) + "\n", g.specs
+
+
+# --------------------------------------------------------------------------- two-operation chains
+#
+# A one-operation function returns its result to the interpreter, which boxes it: a result left in a
+# non-canonical representation (e.g. a heap int holding a value that fits a short int) is invisible
+# there.  Chains feed every int-producing operation into a second COMPILED operation (comparison,
+# truth test, arithmetic, conversion), so the representation of the intermediate value is observed.
+
+CHAIN_PRODUCERS: list[tuple[str, str, list[tuple[str, str]], list[str]]] = [
+    # (label, expression, parameters, operand domains)
+    *[(op, f"x {op} y", [("x", "int"), ("y", "int")], ["B", "S" if op in COUNT_OPS else "B"]) for op in ARITH],
+    ("-x", "-x", [("x", "int")], ["B"]),
+    ("~x", "~x", [("x", "int")], ["B"]),
+    ("abs()", "abs(x)", [("x", "int")], ["B"]),
+    ("int(float)", "int(x)", [("x", "float")], ["F"]),
+    ("int(i64)", "int(x)", [("x", "i64")], ["B"]),
+]
+_PNAME = {"-x": "neg", "~x": "inv", "abs()": "abs", "int(float)": "intf", "int(i64)": "inti64"}
+
+CHAIN_CONSUMERS: list[tuple[str, str, list[str], bool, str, str | None]] = [
+    # (name, label, body given the intermediate `r`, needs third operand c, return type, conversion target)
+    ("eq0", "r==0", ["return r == 0"], False, "bool", None),
+    ("eqc", "r==c", ["return r == c"], True, "bool", None),
+    ("nec", "r!=c", ["return r != c"], True, "bool", None),
+    ("ltc", "r<c", ["return r < c"], True, "bool", None),
+    ("truth", "if r", ["if r:", "    return 1", "return 0"], False, "int", None),
+    ("not", "not r", ["return not r"], False, "bool", None),
+    ("bool", "bool(r)", ["return bool(r)"], False, "bool", None),
+    ("addc", "r+c", ["return r + c"], True, "int", None),
+    ("andc", "r&c", ["return r & c"], True, "int", None),
+    ("rsubc", "c-r", ["return c - r"], True, "int", None),
+    ("neg", "-r", ["return -r"], False, "int", None),
+    ("float", "float(r)", ["return float(r)"], False, "float", None),
+    ("i64", "i64(r)", ["return i64(r)"], False, "i64", "i64"),
+    ("i32", "i32(r)", ["return i32(r)"], False, "i32", "i32"),
+    ("i16", "i16(r)", ["return i16(r)"], False, "i16", "i16"),
+    ("u8", "u8(r)", ["return u8(r)"], False, "u8", "u8"),
+    ("li64", "z: i64 = r", ["z: i64 = r", "return z"], False, "int", "i64"),
+    ("li32", "z: i32 = r", ["z: i32 = r", "return z"], False, "int", "i32"),
+]
+
+
+def generate_chains() -> tuple[str, list[dict]]:
+    g = Gen()
+    for plabel, expr, params, doms in CHAIN_PRODUCERS:
+        pn = _PNAME.get(plabel) or OPNAME[plabel]
+        pref = f"p_{pn}"
+        # the bare producer: its interpreted version supplies the exact intermediate value (third operands)
+        g.add(pref, plabel, params, "int", [f"return {expr}"], doms, fam=plabel)
+        prod_src = g.specs[-1]["src"]
+        for cname, clabel, body, needs_c, ret, conv in CHAIN_CONSUMERS:
+            ps = params + ([("c", "int")] if needs_c else [])
+            ds = doms + (["C3"] if needs_c else [])
+            g.add(f"k_{pn}__{cname}", f"{plabel} -> {clabel}", ps, ret, [f"r = {expr}"] + body, ds, fam=plabel)
+            g.specs[-1].update({"chain": True, "prod": plabel, "prod_ref": pref, "prod_src": prod_src,
+                                "prod_arity": len(params), "conv": conv, "consumer": clabel})
     return "\n".join(g.lines) + "\n", g.specs
